@@ -1006,7 +1006,11 @@ fn dial(args: &[&str]) -> String {
 /// app --UDP--> local proxy socket --stream--> server --UDP--> echo target, and back.
 /// output per datagram: <size>:<t|f target got exactly it>:<t|f app got exactly it back>, then TARGETN=<datagrams seen by the target>
 fn udpe2e(args: &[&str]) -> String {
-    let v6 = args[0] == "6";
+    // "4" / "6": the target listens from the start;  "4L" / "6L": the target port is closed when the association is
+    // created and while a first probe datagram is forwarded (an ICMP port-unreachable comes back), then the target
+    // comes up on that port: every later datagram must still be delivered
+    let v6 = args[0].starts_with('6');
+    let late = args[0].ends_with('L');
     let sizes: Vec<usize> = args[1..].iter().map(|a| a.parse().unwrap()).collect();
     real_rt().block_on(async move {
         let bind = if v6 { "[::1]:0" } else { "127.0.0.1:0" };
@@ -1017,13 +1021,22 @@ fn udpe2e(args: &[&str]) -> String {
         let target_addr = target.local_addr().unwrap();
         let seen: Arc<Mutex<Vec<Vec<u8>>>> = Arc::new(Mutex::new(Vec::new()));
         let seen2 = seen.clone();
-        tokio::spawn(async move {
-            let mut buf = vec![0u8; 70000];
-            while let Ok((n, from)) = target.recv_from(&mut buf).await {
-                seen2.lock().unwrap().push(buf[..n].to_vec());
-                let _ = target.send_to(&buf[..n], from).await;
-            }
-        });
+        let serve = move |target: tokio::net::UdpSocket| {
+            tokio::spawn(async move {
+                let mut buf = vec![0u8; 70000];
+                while let Ok((n, from)) = target.recv_from(&mut buf).await {
+                    seen2.lock().unwrap().push(buf[..n].to_vec());
+                    let _ = target.send_to(&buf[..n], from).await;
+                }
+            });
+        };
+        let mut serve = Some(serve);
+        let mut held = Some(target);
+        if late {
+            held = None; // the port is closed now
+        } else if let (Some(f), Some(t)) = (serve.take(), held.take()) {
+            f(t);
+        }
         let client = test_client();
         client.verif_set_connector(Some(real_connector()));
         let proxy = match tokio::time::timeout(
@@ -1038,6 +1051,21 @@ fn udpe2e(args: &[&str]) -> String {
         let app = tokio::net::UdpSocket::bind("127.0.0.1:0").await.unwrap();
         let mut out = String::new();
         let mut buf = vec![0u8; 70000];
+        if late {
+            let _ = held;
+            // the probe goes to the closed port; give the ICMP error time to come back, then start the target there
+            let _ = app.send_to(b"probe-to-a-closed-port", proxy).await;
+            tokio::time::sleep(Duration::from_millis(300)).await;
+            match tokio::net::UdpSocket::bind(target_addr).await {
+                Ok(t) => {
+                    if let Some(f) = serve.take() {
+                        f(t);
+                    }
+                }
+                Err(_) => return "NO-REBIND".to_string(),
+            }
+            tokio::time::sleep(Duration::from_millis(50)).await;
+        }
         for (i, n) in sizes.iter().enumerate() {
             let mut d = vec![0u8; *n];
             for (j, b) in d.iter_mut().enumerate() {
